@@ -399,6 +399,35 @@ def fam_two_drops_gossip(rng, n, tag="tdg", expect=("repeat",)):
         out.append(s)
     return out
 
+def fam_third_party_views(rng, n, tag="tpv", expect=("repeat",)):
+    """C17: four peers; peer 4 dies; peer 3 has seen fewer of its inputs than the others (the link 4->3 went down
+    earlier); peer 2 drops it with disconnect_player before any timeout fires.  Peer 1 then holds, in the same call,
+    two third-party reports about player 3: 'disconnected at frame a' from peer 2 and 'last frame b < a' from peer 3.
+    What it makes of them must not depend on the order in which its endpoint map yields the two.
+    (Survivors that hold different numbers of frames of a dropped player are the recorded finding of C10: what
+    happens after the cut-off was chosen - including a panic - is that finding's business, so only the label C17
+    counts for this family: the two runs of each scenario must be identical, whatever they do.)"""
+    out = []
+    for i in range(n):
+        w = rng.choice([8, 12])
+        lat = rng.choice([5, 10])
+        s = Scen("%s_%d" % (tag, i), players=4, window=w, lat=lat, seed=rng.randrange(1 << 30),
+                 sparse=rng.randrange(2), pred=rng.choice(["repeat", "default"]), inputrun=rng.choice([1, 3]),
+                 timeout=20000, notify=8000, expect=list(expect))
+        _topology(rng, s, 4, 4, delays=(0, 0, 1))
+        t_die = 12 * lat + rng.randrange(600, 1200)
+        gap = rng.choice([50, 80, 120])
+        t_disc = t_die + 2 * lat + rng.choice([20, 40, 60])
+        end = t_disc + rng.choice([300, 600])
+        s.link(4, 3, outages=[(t_die - gap, 10**9)])
+        for p in (1, 2, 3):
+            s.ticks(p, rng.randrange(0, 16), end, 16)
+        s.ticks(4, rng.randrange(0, 16), t_die, 16)
+        s.at(t_die, "kill", 4)
+        s.at(t_disc, "disc", 2, 3)
+        out.append(s)
+    return out
+
 def fam_death_before_input(rng, n, tag="dbi"):
     """a peer completes the handshake (it polls) but never simulates a frame and then dies: the survivors have
     nothing of it (last frame NULL) and have predicted up to a window of frames; after the timeout - or an
@@ -801,6 +830,29 @@ def fam_misuse(rng, n, tag="mis"):
         r2 = __import__("random").Random(seed)
         for _ in range(r2.randrange(2, 12)):
             d.at(r2.randrange(0, 2900), "misuse", 1, r2.choice(kinds))
+        out.append((c, d))
+    return out
+
+def fam_misuse_disc_again(rng, n, tag="misd"):
+    """C16: disconnect_player on an already disconnected player - the very handle, or another handle at the same
+    address (disconnect_player drops every player of that endpoint) - must return InvalidRequest and change nothing:
+    twin runs, both with the same genuine disconnect_player call, one with the repeated calls inserted"""
+    out = []
+    for i in range(n):
+        seed = rng.randrange(1 << 30)
+        w = rng.choice([2, 8])
+        t_disc = rng.randrange(600, 1500)
+        def mk(dirty):
+            s = Scen("%s_%d%s" % (tag, i, "d" if dirty else "c"), players=3, window=w, lat=10, seed=seed, inputrun=2)
+            s.p2p(1, [0]); s.p2p(2, [1, 2])
+            for p, o in ((1, 0), (2, 5)):
+                s.ticks(p, o, 3000, 16)
+            s.at(t_disc, "disc", 1, 1)
+            return s
+        c, d = mk(False), mk(True)
+        r2 = __import__("random").Random(seed)
+        for _ in range(r2.randrange(2, 8)):
+            d.at(r2.randrange(t_disc + 1, 2900), "misuse", 1, "disc-again:%d" % r2.choice([1, 2]))
         out.append((c, d))
     return out
 
